@@ -113,6 +113,48 @@ def targetsCustomB (tr : Nat → Option String) (body out : List Instr) : Bool :
 
 def sameSkeletonB (body out : List Instr) : Bool := out.map skeleton == body.map skeleton
 
+/-! ### Comparison up to the choice of fresh values
+
+The statement fixes WHICH placeholders a default resolver replaces and what the replacements must
+satisfy (unique, consistent, unused) — not which concrete index / label it picks.  For the
+correspondence the default-resolved positions are therefore masked: a position that held placeholder
+`k` before and holds a fixed value after becomes the marker "placeholder k, resolved" on both the
+implementation's and the model's side; everything else (unresolved placeholders, fixed qubits,
+variables, labels, custom-resolved positions, skeleton) is compared exactly.  The concrete values the
+implementation chose are judged by `stepSpecB` alone. -/
+
+def Target.mask (before after : Target) : Target :=
+  match before, after with
+  | .placeholder k _, .fixed _ => .placeholder k "<resolved>"
+  | _, a => a
+
+def Qubit.mask (before after : Qubit) : Qubit :=
+  match before, after with
+  | .placeholder k, .fixed _ => .var s!"<resolved {k}>"
+  | _, a => a
+
+def maskQubits : List Qubit → List Qubit → List Qubit
+  | b :: bs, a :: as => Qubit.mask b a :: maskQubits bs as
+  | _, as => as
+
+def Instr.mask (maskT maskQ : Bool) (before after : Instr) : Instr :=
+  match before, after with
+  | .tgt _ tb _, .tgt k ta s => if maskT then .tgt k (Target.mask tb ta) s else after
+  | .qs _ _ lb, .qs k s la => if maskQ then .qs k s (maskQubits lb la) else after
+  | _, a => a
+
+def maskBody (maskT maskQ : Bool) : List Instr → List Instr → List Instr
+  | b :: bs, a :: as => Instr.mask maskT maskQ b a :: maskBody maskT maskQ bs as
+  | _, as => as
+
+/-- which parts of a call are resolved by a DEFAULT resolver (and hence compared up to the choice of
+fresh values): (targets, qubits) -/
+def Mode.defaults : Mode → Bool × Bool
+  | .default => (true, true)
+  | .custom => (false, false)
+  | .customTargets => (false, true)
+  | .customQubits => (true, false)
+
 /-! ### One call and sequences of calls -/
 
 /-- What one resolution call has to achieve, by entry point: nothing but qubits/targets changes;
